@@ -185,6 +185,9 @@ func ForeignPlatformAs(enc *errorspb.EncodedError, arch string) int {
 		}
 		if p, ok := da.Message.(*errorspb.ErrnoPayload); ok {
 			p.Arch = arch
+			// another platform numbers its errnos differently: the number
+			// must not be interpreted with the local table
+			p.OrigErrno += 1000
 			if a, err := types.MarshalAny(p); err == nil {
 				d.FullDetails = a
 				n++
